@@ -82,6 +82,17 @@ int32_t matrixSslValidatePeerCerts(ssl_t *ssl,
     psCheckSetPathLenFailure(ssl, ssl->sec.cert);
     rc = psCheckValidationResult(ssl,
             ssl->sec.cert);
+
+    /* Same rule as in the TLS 1.2 path: without any loaded CA a chain that
+       merely ends in a self-signed certificate validates internally, but
+       no trust anchor of this peer has vouched for it. */
+    if (ssl->err == SSL_ALERT_NONE &&
+        (ssl->keys == NULL || ssl->keys->CAcerts == NULL))
+    {
+        ssl->err = SSL_ALERT_UNKNOWN_CA;
+        rc = MATRIXSSL_ERROR;
+    }
+
     if (rc < 0)
     {
         if (ssl->sec.validateCert == NULL)
